@@ -150,7 +150,7 @@ class C09Engine(Engine):
                 return ("either", f"delete-absent-{kind}-twin", DVE, db, LISTS[kind], twins, True)
             return ("reject", f"delete-absent-{kind}", DVE)
         if k == "rename":
-            _, t, field, value = op
+            t, field, value = op[1], op[2], op[3]
             d = m[t]
             if d["db"]:
                 tmp = dict(d)
@@ -159,6 +159,11 @@ class C09Engine(Engine):
                 keys = [fn] + ([tmp["alias"]] if tmp["alias"] else [])
                 have = w.db_keys(d["db"], exclude=t)
                 if any(x in have for x in keys):
+                    # plain attribute assignment cannot be validated.  Most of these renames are not issued; the
+                    # few that are lead to a *clash state* in which a shared key may answer with either table
+                    # while every key that only one table carries must still find that table
+                    if len(op) > 4 and op[4] == "allow-clash":
+                        return ("accept", f"rename-{field}-into-clash")
                     return ("veto", "rename into a used key")
             return ("accept", f"rename-{field}" + ("-contained" if d["db"] else "-detached"))
         if k == "t_add_col":
@@ -241,7 +246,7 @@ class C09Engine(Engine):
             _, db, h, _typed = op
             self._remove(db, LISTS[m[h]["kind"]], h)
         elif k == "rename":
-            _, t, field, value = op
+            t, field, value = op[1], op[2], op[3]
             m[t][field] = value
         elif k == "t_add_col":
             self.w.attach_col(op[1], op[2])
@@ -514,7 +519,10 @@ def draw_op(rng: random.Random, eng: C09Engine, weights: Dict[str, float]) -> Li
         t = rng.choice(tables)
         field = rng.choice(["name", "name", "schema", "alias"])
         pool = {"name": NAMES + ["d", "", "Table"], "schema": SCHEMAS + ["z", ""], "alias": ALIASES + ["", "w", " "]}[field]
-        return ["rename", t, field, rng.choice(pool)]
+        op = ["rename", t, field, rng.choice(pool)]
+        if rng.random() < 0.15:
+            op.append("allow-clash")
+        return op
     if k == "read":
         pool = [h for h, d in m.items() if d["kind"] in ("db", "db", "table", "ref", "enum")]
         h = db if rng.random() < 0.6 else rng.choice(pool)
